@@ -8,9 +8,9 @@ namespace sim {
 
 // ---------------------------------------------------------------------------------------------
 // C07 write monitor: checks one saved file against the model that wrote it.
-void checkWrittenFile(NifFile& nif, const std::string& bytes, const WriteMap& wm, Ctx& ctx, const std::string& where) {
+void checkWrittenFile(NifFile& nif, const std::string& bytes, const WriteMap& wm, Ctx& ctx, const std::string& where, const std::string& classSuffix) {
 	auto p = nifparse::parse(bytes);
-	auto fail = [&](const std::string& cls, const std::string& m) { ctx.viol(cls, where + ": " + m); };
+	auto fail = [&](const std::string& cls, const std::string& m) { ctx.viol(cls + classSuffix, where + ": " + m); };
 	if (!p.ok) fail("file:header-unreadable", "independent reader: " + p.err);
 	auto& hdr = nif.GetHeader();
 	uint32_t nb = hdr.GetNumBlocks();
@@ -77,15 +77,17 @@ void profile_writemon(const json& plan, Ctx& ctx) {
 	if (!makeInitial(plan["init"], *nif, ctx)) { ctx.info["rejected_init"] = true; ctx.probe("rejected_input"); return; }
 	ctx.sig.str(plan["init"].dump());
 	int stepNo = 0;
-	auto saveAndCheck = [&](bool raw, const std::string& where) {
+	auto saveAndCheck = [&](bool raw, const std::string& where, bool pipe = false) {
 		WriteMap wm;
 		SaveSpec sp;
 		sp.raw = raw;
 		sp.map = &wm;
+		sp.nonSeekable = pipe;
+		if (pipe) ctx.fault("F-NOSEEK");
 		SaveOut so = saveNif(*nif, sp);
 		ctx.hist.str(so.bytes);
 		if (so.rc != 0) ctx.viol("file:save-failed", where);
-		checkWrittenFile(*nif, so.bytes, wm, ctx, where);
+		checkWrittenFile(*nif, so.bytes, wm, ctx, where, pipe ? "@non-seekable-stream" : "");
 		ctx.nontrivial = true;
 		return so;
 	};
@@ -95,7 +97,7 @@ void profile_writemon(const json& plan, Ctx& ctx) {
 		std::string where = "step " + std::to_string(stepNo) + " " + op;
 		setStage(op.c_str());
 		ctx.steps++;
-		if (op == "Save") { saveAndCheck(jbool(st, "raw", true), where); ctx.sig.tag("save"); ctx.sig.i(jbool(st, "raw", true)); }
+		if (op == "Save") { saveAndCheck(jbool(st, "raw", true), where + (jbool(st, "pipe", false) ? " (non-seekable stream)" : ""), jbool(st, "pipe", false)); ctx.sig.tag("save"); ctx.sig.i(jbool(st, "raw", true)); ctx.sig.i(jbool(st, "pipe", false)); }
 		else if (op == "Restart") {
 			SaveOut so = saveAndCheck(jbool(st, "raw", true), where);
 			auto fresh = std::make_unique<NifFile>();
